@@ -404,6 +404,9 @@ pub fn run(tier: Tier) -> i32 {
         let kids: Vec<RefPos> = positions.iter().take(2 * ITER_ROOTS.len()).flat_map(|p| p.legal_moves().into_iter().map(move |m| p.apply(m))).collect();
         positions.extend(kids);
     }
+    // a stride of the feature-covering roots (rich middlegame positions: many entries, pins, checks)
+    let fr = feature_roots();
+    positions.extend(fr.iter().step_by(tier.pick(97, 11)).copied());
     let mut seen = BTreeSet::new();
     positions.retain(|p| seen.insert(*p));
     let nprog = AtomicU64::new(0);
